@@ -241,8 +241,8 @@ CHECKS = {
     },
     "C16": {
         "level": "model_checking",
-        "text": "Bounded model checking of the matcher's answers: 24 patterns (sums, products, quotients, powers, calls, "
-                "subscripts, comparisons, conditionals, repeated variables) against targets built as instances (6 substitutions, "
+        "text": "Bounded model checking of the matcher's answers: 35 hand-written patterns plus generated sums / products of 2-3 pattern pieces (sums, products, quotients, powers, calls, "
+                "subscripts, comparisons, conditionals, repeated variables) against targets built as instances (9 substitutions, "
                 "operand orders as built / reversed / flattened with extra operands) and independently (instances of other "
                 "patterns), for the full and the minimal candidate set. For every record the real UnidirectionalUnifier returns: "
                 "only candidates are bound; the instantiated pattern and the target are evaluated by the real evaluator on z3 "
@@ -330,4 +330,4 @@ NOT_APPLICABLE = {f"C{i:02d}": _PENDING for i in range(1, 21)}
 
 NOTES = ("All checks are `./check <ID> --tier quick|thorough` (cwd /verif). They import pymbolic from /repo's working tree on "
          "every run. Exit 0 = held on everything explored, 1 = replayed violation(s) not listed in known_findings.json, "
-         "2 = harness error. See DESIGN.md.")
+         "2 = harness error and no replayed violation (harness errors go to stderr). See DESIGN.md.")
